@@ -27,17 +27,17 @@ var defaultInitPolicy = map[string]string{
 	"github.com/pkg/errors": "run", "time": "zero", "os": "run", "syscall": "zero",
 	"internal/bytealg": "zero", "internal/byteorder": "zero", "iter": "zero", "unique": "zero",
 	"github.com/Workiva/go-datastructures/queue": "run",
-	"github.com/hashicorp/golang-lru/v2": "zero", "github.com/hashicorp/golang-lru/v2/simplelru": "zero",
+	"github.com/hashicorp/golang-lru/v2":         "zero", "github.com/hashicorp/golang-lru/v2/simplelru": "zero",
 	"github.com/hashicorp/golang-lru/v2/internal": "zero",
-	"github.com/hashicorp/golang-lru": "zero", "github.com/hashicorp/golang-lru/simplelru": "zero",
+	"github.com/hashicorp/golang-lru":             "zero", "github.com/hashicorp/golang-lru/simplelru": "zero",
 	"google.golang.org/grpc/codes": "run", "google.golang.org/grpc/status": "zero",
 	"google.golang.org/grpc/internal/status": "zero",
-	"github.com/dustin/go-humanize/english": "zero",
-	"github.com/nats-io/nuid": "zero",
-	"crypto/rand": "zero", "encoding/hex": "zero", "encoding/base64": "run",
+	"github.com/dustin/go-humanize/english":  "zero",
+	"github.com/nats-io/nuid":                "zero",
+	"crypto/rand":                            "zero", "encoding/hex": "zero", "encoding/base64": "run",
 	"github.com/nats-io/nats.go": "zero",
-	"github.com/hashicorp/raft": "zero",
-	"math/rand": "zero",
+	"github.com/hashicorp/raft":  "zero",
+	"math/rand":                  "zero",
 }
 
 // initOverride replaces a package's init (heavy or OS-dependent ones).
